@@ -121,3 +121,25 @@ Theorem C15_src_pin_operations_copy_file : pin_unchanged name_operations_copy_fi
 Proof. exact pin_operations_copy_file. Qed.
 Print Assumptions C15_src_pin_operations_new.
 Print Assumptions C15_src_pin_operations_copy_file.
+
+(* ---- further functions on this property's path, pinned token for token as validated (dependency review after rounds 5 and 6:
+   each missed change had edited a pinned function that this property did not cite) ---- *)
+From XcpPins Require Import Pin_operations_tree_walker Pin_parblock_dispatch_worker Pin_parfile_copy_worker Pin_linux_try_copy_file_range Pin_linux_copy_file_bytes Pin_linux_copy_file_offset.
+Theorem C15_src_pin_operations_tree_walker : pin_unchanged name_operations_tree_walker.
+Proof. exact pin_operations_tree_walker. Qed.
+Theorem C15_src_pin_parblock_dispatch_worker : pin_unchanged name_parblock_dispatch_worker.
+Proof. exact pin_parblock_dispatch_worker. Qed.
+Theorem C15_src_pin_parfile_copy_worker : pin_unchanged name_parfile_copy_worker.
+Proof. exact pin_parfile_copy_worker. Qed.
+Theorem C15_src_pin_linux_try_copy_file_range : pin_unchanged name_linux_try_copy_file_range.
+Proof. exact pin_linux_try_copy_file_range. Qed.
+Theorem C15_src_pin_linux_copy_file_bytes : pin_unchanged name_linux_copy_file_bytes.
+Proof. exact pin_linux_copy_file_bytes. Qed.
+Theorem C15_src_pin_linux_copy_file_offset : pin_unchanged name_linux_copy_file_offset.
+Proof. exact pin_linux_copy_file_offset. Qed.
+Print Assumptions C15_src_pin_operations_tree_walker.
+Print Assumptions C15_src_pin_parblock_dispatch_worker.
+Print Assumptions C15_src_pin_parfile_copy_worker.
+Print Assumptions C15_src_pin_linux_try_copy_file_range.
+Print Assumptions C15_src_pin_linux_copy_file_bytes.
+Print Assumptions C15_src_pin_linux_copy_file_offset.
